@@ -97,8 +97,13 @@ def gen(rng, tier):
             app.append(['enter', p, ns, rng.choice(['r1', 'r2', 7])])
         elif k < 0.28:
             app.append(['leave', p, ns, rng.choice(['r1', 'r2', 7])])
-        elif k < 0.33:
+        elif k < 0.31:
             app.append(['close', ns, rng.choice(['r1', 'r2'])])
+        elif k < 0.33:
+            # late clean-up naming a client that is gone, possibly in a
+            # namespace nobody is connected to any more
+            app.append(['leave_ghost', rng.choice(NSS + ['/void']),
+                        rng.choice(['r1', 'r2'])])
         elif k < 0.55:
             app.append(['event', p, ns, 'T%d' % tok,
                         rng.choice([None, 1, 9]), rng.random() < 0.3])
@@ -300,6 +305,8 @@ def _run_twin(case, cfg, instrumented, w):
                       sid, room, namespace=ns)
         elif k == 'close':
             w.api('s', 'close_room', op[2], namespace=op[1])
+        elif k == 'leave_ghost':
+            w.api('s', 'leave_room', 'nobody', op[2], namespace=op[1])
         elif k == 'event':
             _, p, ns, tok, id_, binary = op
             if p in sc.peers and sc.alive(p):
